@@ -6,11 +6,7 @@ from sa import props
 VERIF = pathlib.Path(__file__).resolve().parent.parent
 ALL = [json.loads(l)["id"] for l in open(VERIF / "properties.jsonl")]
 TECH = {}
-NA = {
-    "C20": "static analysis of tealer's source does not decide C20: correctness of a memoised DFS and a straight-line matcher "
-           "over arbitrary instruction graphs is a function of graph shape and visitation order; no clause is both visible in "
-           "the shape of the Python source and a necessary condition independent of the algorithm chosen (DESIGN.md section 5)",
-}
+NA = {}   # every property is claimed (C20 through T-REGEX since the D11 repair)
 NOT_YET = "check not built yet in this session (planned, see DESIGN.md section 4); not claimed until it runs clean"
 TECH_DEFAULT = "static analysis: abstract evaluation of the source's syntax trees into decision tables compared with AVM-derived oracles; structural/flow rules over the parsed package"
 checks = []
